@@ -129,6 +129,12 @@ RandomDesc(L, S) ==
             [] op = "uni"  -> D(Pick(1..Len(S)), Pick(1..Len(CodePoints)))
             [] op = "unin" -> D(Pick(asc), Pick(1..Len(CodePoints)))
 
+\* a random prefix of the text (at a character boundary)
+RandomTrunc(L) ==
+  IF Len(L) = 0 THEN [op |-> "orig", i |-> 0, a |-> 0]
+  ELSE LET i == Pick(1..Len(L)) IN
+       [op |-> "trunc", i |-> i, a |-> IF L[i].a /\ Len(L[i].s) > 1 THEN Pick(0..(Len(L[i].s) - 1)) ELSE 0]
+
 (* ---- grammar-based garbage ---------------------------------------------
    (a) token soup: every sequence of n alphabet tokens separated by blanks;
    (b) statement skeletons whose holes are filled with arbitrary alphabet tokens: the text parses far
